@@ -35,6 +35,7 @@ type LoopSpec struct {
 	Bound      int
 	Cut        bool
 	Ghosts     []LoopGhost
+	autoRange  bool
 }
 
 type GhostUpd struct {
@@ -896,7 +897,11 @@ func (e *Env) binary(x *ast.BinaryExpr) TV {
 	switch x.Op {
 	case token.EQL, token.NEQ:
 		var r Term
+		_, isSlice := types.Unalias(a.Ty).Underlying().(*types.Slice)
 		if isBytesType(a.Ty) {
+			r = eq(a.T, b.T)
+		} else if isSlice && a.T != "(mk_slc 0 0 0 0)" && b.T != "(mk_slc 0 0 0 0)" {
+			// specification-level equality of slice headers (same backing, offset, length)
 			r = eq(a.T, b.T)
 		} else {
 			r = u.equal(a.Ty, a.T, b.T)
